@@ -460,8 +460,8 @@ META = {
                 'scan cannot throw from an all-satisfied state, exhausting maxtries is a normal return); of Blocks::split the mergeRight half is proved to keep every '
                 'constraint satisfied given that findMinOutConstraint delivers a most violated out-constraint (C01_static_merge_right_all_sat_partial). Since then both heap-root hypotheses '
                 'are discharged (C01_static_merge_right_all_sat, C01_static_split_merge_left: Vpsc/StaticOutHeap.v, StaticInHeap.v) and Block::split is characterised (halves at their '
-                'optimum, forest facts, the sign lemma lm(c) < 0 => left half moves left / right half\'s optimum is to the right: C01_static_split_*); what is still missing for the '
-                'unconditional statement is the assembly through static_split / refine_pass, so the hypothesis of the _passes_partial theorem stays visible. The entail_check certificate is still evaluated on '
+                'optimum, forest facts, the sign lemma lm(c) < 0 => left half moves left / right half\'s optimum is to the right: C01_static_split_*); one whole Blocks::split is now proved to return all-satisfied from refine\'s invariants (C01_static_split_all_sat) and refine\'s loop never throws; what is still missing for the '
+                'unconditional statement is deriving those invariants at every split (findMinLM stationarity, forest, lengths) and totality of refine_pass, so the hypothesis of the _passes_partial theorem stays visible. The entail_check certificate is still evaluated on '
                 'every instance (model\'s and implementation\'s constraint sets) as validation of model and chain lemma. The model is compared exactly '
                 'with the compiled generators on every run. '
                 'Follow-up 9.18: C09_borders_restored_every_n (the model always returns and the border globals are the caller\'s, for EVERY rectangle list, n = 0 and 1 '
